@@ -84,7 +84,7 @@ fn c02_disconnect5_reason() { disconnect_body(true, 1, 8) }
 
 // @gv props=C02 tier=quick required=yes fns=write_disconnect_encoding_steps5,compute_disconnect_packet_length_properties
 // @gv bounds="DISCONNECT/MQTT5 with session expiry (symbolic), reason string, server reference and one user property"
-// @gv timeout=1200 mem=12
+// @gv timeout=1200 mem=5
 #[kani::proof]
 #[kani::unwind(20)]
 #[kani::stub(std::fmt::format, stub_format)]
